@@ -8,7 +8,7 @@ use std::sync::Mutex;
 use std::sync::atomic::{AtomicBool, AtomicU64, AtomicUsize, Ordering};
 use std::time::Instant;
 
-pub fn digest<T: Hash>(t: &T) -> u64 {
+pub fn digest<T: Hash + ?Sized>(t: &T) -> u64 {
     // DefaultHasher::new() uses fixed keys: deterministic across runs and threads.
     let mut h = std::collections::hash_map::DefaultHasher::new();
     t.hash(&mut h);
